@@ -1,7 +1,7 @@
 (* C04 — Headroom: a resize in progress never has to be interrupted by another. *)
 From stdpp Require Import gmap list.
 From Coq Require Import NArith.
-From G Require Import Arith Monad Types Inv Raw Map MapProofs WorldProofs Theorems.
+From G Require Import Arith Monad Types Inv Raw Map MapProofs Cost Fill WorldProofs Theorems.
 Local Open Scope N_scope.
 
 Theorem C04_capacity_ge_len : forall c w i m,
@@ -29,6 +29,23 @@ Theorem C04_sizing_keeps_headroom : forall c w t,
   end.
 Proof. exact T_C04_sizing_keeps_headroom. Qed.
 
+(* the property as stated: inserting capacity() - len() previously unseen keys completes without
+   panicking (other than an injected user panic), without growth or table allocation, without
+   capacity() decreasing, and (if at least one key was inserted) leaves no resize pending *)
+Theorem C04_fill : forall c es s,
+  Inv (cR c) (cesz c) (s_rt s) -> NoDup (map ek es) -> (forall e, e ∈ es -> rt_abs (s_rt s) !! ek e = None) ->
+  N.of_nat (length es) = rt_capacity (s_rt s) - rt_len (s_rt s) ->
+  match iterM (rt_insert c) es s with
+  | Ok _ s' =>
+      Inv (cR c) (cesz c) (s_rt s') /\ rt_abs (s_rt s') = insert_all (rt_abs (s_rt s)) es /\
+      hB (main (s_rt s')) = hB (main (s_rt s)) /\ rt_capacity (s_rt s) <= rt_capacity (s_rt s') /\
+      l_alloc (s_log s') = l_alloc (s_log s) /\ (es <> [] -> lo (s_rt s') = None)
+  | Unwind p s' => Inv (cR c) (cesz c) (s_rt s') /\ p = PUser
+  | Fault f => benign f
+  end.
+Proof. exact T_C04_fill. Qed.
+
+Print Assumptions C04_fill.
 Print Assumptions C04_capacity_ge_len.
 Print Assumptions C04_headroom_invariant.
 Print Assumptions C04_full_implies_no_resize.
